@@ -373,6 +373,35 @@ func runConc(seed int64, be string, maxG, opsPer int) ([][]byte, map[string]int)
 	// the handle is closed while the others use it: Close takes effect at one instant, calls before it
 	// behave as ever, calls after it fail - and every call returns
 	if concFamily == "close" {
+		// the others mostly run operations that are built on other public operations (FindAll on IterateDocs, Exists on
+		// FindFirst on FindAll, Update on UpdateFunc, Save on Insert / ReplaceById), with criteria that take a while
+		// to prepare: whatever clover does between entering the outer and the inner operation, Close may fall there
+		for gi := 0; gi < G-1; gi++ {
+			for k := range progs[gi] {
+				if g.chance(0.25) {
+					continue
+				}
+				list := make([]interface{}, 0)
+				for len(list) < 24+g.r.Intn(16) {
+					list = append(list, []interface{}{"lit", g.smallNum()})
+				}
+				q := []interface{}{[]interface{}{"where", []interface{}{"or", g.crit(2), []interface{}{"un", "in", B("x"), []interface{}{"list", list}}}}}
+				switch g.r.Intn(7) {
+				case 0:
+					progs[gi][k] = E{"op": "Count", "c": c, "q": q}
+				case 1:
+					progs[gi][k] = E{"op": "Exists", "c": c, "q": q}
+				case 2:
+					progs[gi][k] = E{"op": "FindFirst", "c": c, "q": q}
+				case 3:
+					progs[gi][k] = E{"op": "Update", "c": c, "q": q, "upd": g.updateMap()}
+				case 4:
+					progs[gi][k] = E{"op": "Save", "c": c, "docs": []interface{}{g.doc(AStr(g.pick(g.ids)))}}
+				default:
+					progs[gi][k] = E{"op": "FindAll", "c": c, "q": q}
+				}
+			}
+		}
 		k := g.r.Intn(len(progs[G-1]))
 		progs[G-1] = append(append(append([]E{}, progs[G-1][:k]...), E{"op": "Close"}), progs[G-1][k:]...)
 	}
